@@ -15,6 +15,28 @@ CH_NOTE = ("Trusted: CPython, CrossHair 0.0.110's models of int/bool/str primiti
            "replayed under /venv/bin/python without CrossHair before it is reported.")
 
 CLAIMS = {
+    'C02': dict(
+        engine='CH',
+        technique='solver-driven path exploration of the real scanner pipeline with CrossHair/z3 (finite-choice '
+                  'inputs fixed by solver-decided forks, exhaustion certified by the solver); oracle written from '
+                  'the property statement; counterexamples replayed concretely',
+        category='model_checking',
+        text='(a) every C/stdint/GLib basic spelling the scanner knows (78, table written independently of '
+             'ast.type_names; a spelling missing from the oracle is reported) x pointer depth 0-2 x const/volatile '
+             'on pointee and on the outer pointer, as parameter, return value and record field: emitted type name, '
+             'c:type token-for-token equal to the original spelling, default transfer (in: none; returned basic/'
+             'const: none; returned non-const string: full), returned char** an array of utf8, untyped pointers '
+             'nullable. (b) every arrangement of <=4 parameters over {callback, GAsyncReadyCallback, GDestroyNotify, '
+             'gpointer user_data, gpointer *_data, gpointer other, GError**, int} in functions, methods, callback '
+             'typedefs and virtual methods: trailing GError** removed + throws, closure/destroy indices, notified and '
+             'async scopes, nothing attached to non-callbacks. (c) a direction annotation alone on 30 type kinds: '
+             'out/inout transfer full unless caller-allocated. CrossHair "Confirmed over all paths" per partition.',
+        design_ref='DESIGN.md section 4, C02',
+        note=CH_NOTE + ' Finite-choice inputs are fixed by solver-decided binary search (vlib/sym.py) and the '
+             'pipeline then runs without opcode interception for that path. Not asserted because the statement does '
+             'not decide them: pointer to _Bool, a gpointer not named *data, several user-data candidates, an '
+             'async-ready callback directly followed by a destroy-notify. Function-pointer parameters, bit-fields '
+             'and more than four parameters are outside the bounds.'),
     'C05': dict(
         engine='CH',
         technique='solver-driven path exploration of the real scanner pipeline with CrossHair/z3 (every '
